@@ -6,7 +6,7 @@
     [eval_ds G CC name st arg sz]  the outcome the generated description gives in process state [st];
     [documented ... name]          the hand-written table taken from etc/snoopy.ini.in and the source headers. *)
 From Coq Require Import String ZArith NArith List Lia.
-From Snoopy Require Import Lib.CStr Datasource.Cmdline DsTruth.Model DsTruth.Proofs.
+From Snoopy Require Import Lib.CStr Datasource.Cmdline DsTruth.Model DsTruth.Proofs DsTruth.Procfs.
 From Gen Require Import Gen_Ds Gen_Cmdline.
 Import ListNotations.
 Local Open Scope Z_scope.
@@ -43,6 +43,19 @@ Theorem C12_env_all : forall env sz, (4 <= sz)%N ->
   env_all (g_consts G) env sz = Some (env_all_spec env sz) /\ (len (env_all_spec env sz) < sz)%N.
 Proof. exact (env_all_general G gen_ok). Qed.
 
+(** cgroup: for every text of /proc/<pid>/cgroup and every pattern, the entry selected by the code (strstr loop with start-of-line
+    test for a hierarchy number; strtok_r lines and controller-list scan for a name) is the documented one: the first line
+    "<number>:..." resp. the first line whose second colon-separated field (non-empty, of at least three) names the controller *)
+Theorem C12_cgroup_line : forall content arg, cgroup_select content arg = cgroup_spec content arg.
+Proof. exact cgroup_select_spec. Qed.
+
+(** rpname: reading "Name"/"PPid" back from a status text, and the walk: along every ancestor chain (each member's status file
+    well formed, the last member's parent being pid 1 or 0) the result is the name of that last member, the root ancestor *)
+Theorem C12_rpname_root : forall status_of ch top, chain_ok status_of ch top -> forall fuel, (length ch <= fuel)%nat ->
+  rpname_walk (g_consts G) status_of fuel (n_pid (hd {| n_pid := 0; n_name := []; n_mid := []; n_tail := [] |} ch)) =
+  Some (takeN (rp_val_max (g_consts G)) (n_name (last ch {| n_pid := 0; n_name := []; n_mid := []; n_tail := [] |}))).
+Proof. exact (rpname_general G gen_ok). Qed.
+
 (** the time below which [timestamp] is exact: 2^31 for the int cast of the current source, 2^63 for the full-width form *)
 Lemma C12_timestamp_bound : two31 <= ts_exact_below G.
 Proof. exact (ts_bound_general G). Qed.
@@ -77,7 +90,29 @@ Example C12_nonvacuous_env_all :
   option_map string_of_list_byte (env_all (g_consts G) (Some [lit "A=1"; lit "LOGNAME=bob"; lit "AB=2"]) 20) = Some "A=1,LOGNAME=bob,..."%string.
 Proof. vm_compute. reflexivity. Qed.
 
+Example C12_nonvacuous_cgroup :
+  let text := lit "11:cpu,cpuacct:/a
+x1:pids:/no
+1:name=systemd:/user.slice
+0::/c
+" in
+  map (fun a => option_map string_of_list_byte (cgroup_select text (lit a))) ["1"; "cpuacct"; "name=systemd"; "0"; "pids"; "7"]%string
+  = [Some "1:name=systemd:/user.slice"; Some "11:cpu,cpuacct:/a"; Some "1:name=systemd:/user.slice"; Some "0::/c"; Some "x1:pids:/no"; None]%string.
+Proof. vm_compute. reflexivity. Qed.
+
+Definition status_example (name : string) (ppid : N) : list byte :=
+  status_text (lit name) [(lit "Umask", lit "0022"); (lit "Pid", lit "77")] ppid [lit "Uid:	0	0"; lit "no colon line"].
+Definition proc_example (p : Z) : option (list byte) :=
+  if p =? 4242 then Some (status_example "leaf" 4000) else if p =? 4000 then Some (status_example "mid (x)" 331)
+  else if p =? 331 then Some (status_example "root anc" 1) else None.
+Example C12_nonvacuous_rpname :
+  option_map string_of_list_byte (rpname_walk (g_consts G) proc_example 4 4242) = Some "root anc"%string
+  /\ option_map string_of_list_byte (rpname_walk (g_consts G) proc_example 4 5) = Some "(unknown)"%string.
+Proof. vm_compute. split; reflexivity. Qed.
+
 Print Assumptions C12_table.
+Print Assumptions C12_cgroup_line.
+Print Assumptions C12_rpname_root.
 Print Assumptions C12_id_only_own_field.
 Print Assumptions C12_id_injective.
 Print Assumptions C12_env_all.
